@@ -127,7 +127,7 @@ def main(tier, seed, budget):
             for job, out in pool.imap(st, timeout=900):
                 if out[0] == 'ok':
                     r = out[1]
-                    got.setdefault(job['tag'][0], []).append((r['digest'], tuple(sorted((r.get('out_hashes') or {}).items())), repr(r['violation'])))
+                    got.setdefault(job['tag'][0], []).append((r['digest'], tuple(sorted((r.get('out_hashes') or {}).items())), repr((r['violation'] or {}).get('sig'))))
             bad = [k for k, v in got.items() if len(v) == 2 and v[0] != v[1]]
             selftest['same_seed_twice'] = dict(pairs=len(got), mismatches=len(bad))
             if bad:
